@@ -15,25 +15,25 @@ def Offered (c : Cfg δ) (gso : Bool) (pk : List (Pkt δ)) (e : Entry) : Prop :=
   RunShape c.maxSeg pk e ∧ (∀ p, pk[e.start]? = some p → c.routable p.dst = true) ∧ (gso = false → e.cnt = 1)
 
 theorem run_spec (c : Cfg δ) (kern : Nat → Nat → Outcome) (hk : KernOK kern) (pk : List (Pkt δ)) (gso : Bool)
-    (i k : Nat) (hi : i ≤ pk.length) :
-    let r := run c kern pk gso i k
+    (i k : Nat) (ctl : Ctl) (hi : i ≤ pk.length) :
+    let r := run c kern pk gso i k ctl
     (accepted r.calls).Pairwise Before ∧ (∀ e ∈ accepted r.calls, i ≤ e.start ∧ e.start + e.cnt ≤ pk.length) ∧
     r.written = sumCnt (accepted r.calls) ∧
     (∀ call ∈ r.calls, call.ents ≠ [] ∧ call.done + call.ents.length ≤ c.n ∧ ∀ e ∈ call.ents, Offered c gso pk e) ∧
     r.overrun = false := by
-  fun_induction run c kern pk gso i k with
-  | case1 gso i k h p hp => simp [accepted, sumCnt]
-  | case2 gso i k h p hp d hd r ih =>
-    have ps := pack_spec c gso pk i 0 0 hi
+  fun_induction run c kern pk gso i k ctl with
+  | case1 gso i k ctl h p hp => simp [accepted, sumCnt]
+  | case2 gso i k ctl h p hp d hd r ih =>
+    have ps := pack_spec c gso pk i 0 0 ctl hi
     simp only at ps
-    rw [show pack c gso pk i 0 0 = p from rfl] at ps
+    rw [show pack c gso pk i 0 0 ctl = p from rfl] at ps
     obtain ⟨p1, p2, p3, p4, p5⟩ := ps
-    have ds := drain_spec kern hk gso p.1 0 k
+    have ds := drain_spec kern hk gso p.ents p.ctl 0 k
     simp only at ds
-    rw [show drain kern gso p.1 0 k = d from rfl] at ds
+    rw [show drain kern gso p.ents p.ctl 0 k = d from rfl] at ds
     obtain ⟨d1, d2, d3, d4, d5⟩ := ds
     have ih := ih p2
-    rw [show run c kern pk gso p.2 (k + d.calls.length) = r from rfl] at ih
+    rw [show run c kern pk gso p.next (k + d.calls.length) p.ctl = r from rfl] at ih
     obtain ⟨r1, r2, r3, r4, r5⟩ := ih
     simp only [List.drop_zero] at d4
     refine ⟨?_, ?_, ?_, ?_, r5⟩
@@ -61,28 +61,28 @@ theorem run_spec (c : Cfg δ) (kern : Nat → Nat → Outcome) (hk : KernOK kern
           have := p3 e (List.mem_of_mem_drop he)
           exact ⟨this.2.2.1, this.2.2.2.1, this.2.2.2.2⟩
       · exact r4 call hc
-  | case3 gso i k h p hp d i' hd r ih =>
-    have ps := pack_spec c gso pk i 0 0 hi
+  | case3 gso i k ctl h p hp d i' hd r ih =>
+    have ps := pack_spec c gso pk i 0 0 ctl hi
     simp only at ps
-    rw [show pack c gso pk i 0 0 = p from rfl] at ps
+    rw [show pack c gso pk i 0 0 ctl = p from rfl] at ps
     obtain ⟨p1, p2, p3, p4, p5⟩ := ps
-    have ds := drain_spec kern hk gso p.1 0 k
+    have ds := drain_spec kern hk gso p.ents p.ctl 0 k
     simp only at ds
-    rw [show drain kern gso p.1 0 k = d from rfl] at ds
+    rw [show drain kern gso p.ents p.ctl 0 k = d from rfl] at ds
     obtain ⟨d1, d2, d3, d4, d5⟩ := ds
     obtain ⟨j, hj, _, hij, hc2, hsub⟩ := d5 i' hd
     simp only [List.drop_zero, Nat.sub_zero] at hsub d4
-    have gj := p3 p.1[j] (List.getElem_mem hj)
+    have gj := p3 p.ents[j] (List.getElem_mem hj)
     have hi' : i' ≤ pk.length := by rw [hij]; have := gj.2.1; omega
     have ih := ih hi'
-    rw [show run c kern pk false i' (k + d.calls.length) = r from rfl] at ih
+    rw [show run c kern pk false i' (k + d.calls.length) p.ctl = r from rfl] at ih
     obtain ⟨r1, r2, r3, r4, r5⟩ := ih
     refine ⟨?_, ?_, ?_, ?_, r5⟩
     · simp only [accepted_append]
       rw [List.pairwise_append]
       refine ⟨p4.sublist d4, r1, ?_⟩
       intro a ha b hb
-      have h1 : Before a p.1[j] := pairwise_take_getElem p.1 p4 j hj a (hsub.subset ha)
+      have h1 : Before a p.ents[j] := pairwise_take_getElem p.ents p4 j hj a (hsub.subset ha)
       have := (r2 b hb).1
       simp only [Before] at *; omega
     · simp only [accepted_append]
@@ -105,14 +105,14 @@ theorem run_spec (c : Cfg δ) (kern : Nat → Nat → Outcome) (hk : KernOK kern
         refine ⟨q1, q2, fun e he => ?_⟩
         have := q3 e he
         exact ⟨this.1, this.2.1, fun hg => this.2.2 rfl⟩
-  | case4 gso i k h p hp d hd =>
-    have ps := pack_spec c gso pk i 0 0 hi
+  | case4 gso i k ctl h p hp d hd =>
+    have ps := pack_spec c gso pk i 0 0 ctl hi
     simp only at ps
-    rw [show pack c gso pk i 0 0 = p from rfl] at ps
+    rw [show pack c gso pk i 0 0 ctl = p from rfl] at ps
     obtain ⟨p1, p2, p3, p4, p5⟩ := ps
-    have ds := drain_spec kern hk gso p.1 0 k
+    have ds := drain_spec kern hk gso p.ents p.ctl 0 k
     simp only at ds
-    rw [show drain kern gso p.1 0 k = d from rfl] at ds
+    rw [show drain kern gso p.ents p.ctl 0 k = d from rfl] at ds
     obtain ⟨d1, d2, d3, d4, d5⟩ := ds
     simp only [List.drop_zero] at d4
     refine ⟨p4.sublist d4, ?_, d2, ?_, rfl⟩
@@ -127,13 +127,13 @@ theorem run_spec (c : Cfg δ) (kern : Nat → Nat → Outcome) (hk : KernOK kern
         rw [hje] at he
         have := p3 e (List.mem_of_mem_drop he)
         exact ⟨this.2.2.1, this.2.2.2.1, this.2.2.2.2⟩
-  | case5 gso i k h p hp d hd =>
+  | case5 gso i k ctl h p hp d hd =>
     exfalso
-    have ds := drain_spec kern hk gso p.1 0 k
+    have ds := drain_spec kern hk gso p.ents p.ctl 0 k
     simp only at ds
-    rw [show drain kern gso p.1 0 k = d from rfl] at ds
+    rw [show drain kern gso p.ents p.ctl 0 k = d from rfl] at ds
     exact ds.1 hd
-  | case6 gso i k h => simp [accepted, sumCnt]
+  | case6 gso i k ctl h => simp [accepted, sumCnt]
 
 theorem idxs_sorted (es : List Entry) (h : es.Pairwise Before) :
     (es.flatMap Entry.idxs).Pairwise (· < ·) := by
